@@ -119,6 +119,8 @@ def known_k1(ctx):
 def run(ctx):
     base = [(gen_games.FIG55, gen_games.FIG55_META)] + sc.corpus_games() + gen_games.pattern_games(2)
     base += gen_games.mixed_games(ctx.rng, 70 if ctx.quick else 1500, 4, 9, styles=("stopping", "exact", "ties"))
+    ct = gen_games.chain_tie_games()
+    base += ct[::3] if ctx.quick else ct
     k = 3 if ctx.quick else 7
     games, plan = [], []
     for g, m in base:
